@@ -326,8 +326,10 @@ class SEnum:
 class LoopSpec:
     """inv: callable(V) -> SV bool | dict name->SV bool; V has the locals as attributes,
     V.idx = number of completed iterations (for loops), V.ghost = engine ghost dict"""
-    def __init__(self, inv=None, decreases=None, mode="inv", modifies=(), types=None):
+    def __init__(self, inv=None, decreases=None, mode="inv", modifies=(), types=None, defs=None, split=None):
         self.types = types or {}
+        self.defs = defs          # mode 'defs': callable(v) -> {path: (done -> cell function)}
+        self.split = split        # callable(v) -> extra index terms to case-split on
         self.inv = inv
         self.decreases = decreases
         self.mode = mode
@@ -512,6 +514,45 @@ class Runtime:
         if fr["spec"].mode == "inv":
             for nm, c in self._eval_inv(fr, loc, SV(z3.IntVal(0))).items():
                 eng.oblige(f"{key}/inv-entry/{nm}", c, kind="inv-entry")
+        elif fr["spec"].mode == "defs":
+            self._defs_entry(fr, key, loc)
+
+    # ---- 'defs' mode: the loop is a map over an index domain; every array it writes is *defined*
+    #      by a closure parameterised by the set of processed indices (no quantifiers, no havoc)
+    def _resolve(self, loc, path):
+        parts = path.split(".")
+        o = loc[parts[0]]
+        for a in parts[1:]:
+            o = getattr(o, a)
+        return o
+
+    def _defs_entry(self, fr, key, loc):
+        eng = self.eng
+        spec = fr["spec"]
+        v = NS({k: val for k, val in loc.items() if not k.startswith("__")}, ghost=getattr(eng, "ghost", {}))
+        with eng.spec_mode():
+            d = spec.defs(v)
+        fr["defs"] = d
+        fr["targets"] = {p: self._resolve(loc, p) for p in d}
+        fr["extra_split"] = list(spec.split(v)) if spec.split else []
+        for p, tgt in fr["targets"].items():
+            if not isinstance(tgt, SArrBase) or any(q[0] != "sl" for q in tgt.sels):
+                raise Undecided(f"loop {key}: defs target {p} must be a whole symbolic array")
+            idx, hyp = tgt.all_cells("e")
+            with eng.spec_mode():
+                val = d[p](lambda x: False)(*[SV(i) for i in idx])
+            eng.oblige(f"{key}/defs-entry/{p}", SV(z3.Implies(hyp, eqv(tgt.at(*idx), val))),
+                       split=idx + fr["extra_split"], kind="inv-entry")
+
+    def _defs_install(self, fr, done):
+        eng = self.eng
+        for p, tgt in fr["targets"].items():
+            f = fr["defs"][p](done)
+
+            def get(idx, f=f):
+                with eng.spec_mode():
+                    return f(*[SV(i) for i in idx])
+            tgt.store.get = get
 
     def loop_havoc(self, key, loc, names):
         fr = self._frame(key)
@@ -526,19 +567,21 @@ class Runtime:
             if isinstance(v, (SList,)) or isinstance(v, SArrBase):
                 if v.birth in ticks:
                     v.havoc()
-                    hav.add(id(v))
+                    hav.add(id(getattr(v, "store", v)))
         # also attributes of `self`
         s = loc.get("self")
         if s is not None and hasattr(s, "__dict__"):
             for an, v in vars(s).items():
-                if (isinstance(v, SList) or isinstance(v, SArrBase)) and v.birth in ticks and id(v) not in hav:
+                if (isinstance(v, SList) or isinstance(v, SArrBase)) and v.birth in ticks and id(getattr(v, "store", v)) not in hav:
                     v.havoc()
-                    hav.add(id(v))
+                    hav.add(id(getattr(v, "store", v)))
+        for tgt in fr.get("targets", {}).values():
+            hav.add(id(tgt.store))
         fr["havoc_ids"] = hav
         # a havocked variable that holds a fresh container: it is its own object now
         for nm, v in out.items():
             if isinstance(v, SList) or isinstance(v, SArrBase):
-                hav.add(id(v))
+                hav.add(id(getattr(v, "store", v)))
         return out
 
     def _havoc_value(self, nm, v):
@@ -596,15 +639,35 @@ class Runtime:
     def loop_elem(self, key):
         fr = self._frame(key)
         eng = self.eng
+        if fr["spec"].mode == "defs":
+            it = fr["iterable"]
+            l = eng.fresh("it", z3.IntSort())
+            P = eng.fresh_fun("done", z3.IntSort(), z3.BoolSort())
+            eng.assume(z3.And(self._member(it, l), z3.Not(P(l))))
+            fr["elem"] = l
+            fr["P"] = P
+            return SV(l)
         n, at = self._domain(fr)
         i = eng.fresh("it", z3.IntSort())
         eng.assume(z3.And(i >= 0, i < n))
         fr["idx"] = SV(i)
         return at(i)
 
+    def _member(self, it, x):
+        if isinstance(it, SRange):
+            return z3.And(x >= it.lo.t, x < it.hi.t)
+        if hasattr(it, "member"):
+            return it.member(x)
+        raise Undecided("defs-mode loop over an unsupported domain")
+
     def loop_assume_inv(self, key, loc):
         fr = self._frame(key)
         eng = self.eng
+        if fr["spec"].mode == "defs":
+            P = fr["P"]
+            self._defs_install(fr, lambda x: SV(P(z3int(x))))
+            fr["fp"] = _fingerprint(loc)
+            return
         if fr["iterable"] is None and "idx" not in fr:
             i = eng.fresh("it", z3.IntSort())
             eng.assume(i >= 0)
@@ -624,6 +687,17 @@ class Runtime:
         eng = self.eng
         if _fingerprint(loc) != fr["fp"]:
             raise Undecided(f"loop {key}: concrete (non-proxy) container or attribute mutated inside a cut loop")
+        if fr["spec"].mode == "defs":
+            P, l = fr["P"], fr["elem"]
+            done2 = lambda x: SV(z3.Or(P(z3int(x)), z3int(x) == l))
+            for p, tgt in fr["targets"].items():
+                idx, hyp = tgt.all_cells("e")
+                with eng.spec_mode():
+                    val = fr["defs"][p](done2)(*[SV(i) for i in idx])
+                eng.oblige(f"{key}/defs-preserve/{p}", SV(z3.Implies(hyp, eqv(tgt.at(*idx), val))),
+                           split=idx + [l] + fr["extra_split"], kind="inv-preserve")
+            self._pop(fr)
+            raise StopPath("arbitrary iteration done")
         for nm, c in self._eval_inv(fr, loc, fr["idx"] + 1).items():
             eng.oblige(f"{key}/inv-preserve/{nm}", c, kind="inv-preserve")
         if fr["spec"].decreases is not None:
@@ -649,6 +723,10 @@ class Runtime:
     def loop_exit(self, key, loc):
         fr = self._frame(key)
         eng = self.eng
+        if fr["spec"].mode == "defs":
+            it = fr["iterable"]
+            self._defs_install(fr, lambda x: SV(self._member(it, z3int(x))))
+            return
         n, at = self._domain(fr)
         idx = SV(n) if n is not None else None
         if idx is None:
@@ -1068,12 +1146,11 @@ class Loader:
 
     def _sf_module(self, full):
         path, ispkg = self.path_of(full)
-        if full == "strawberryfields" or (ispkg and full.count(".") == 0):
-            return SFPackage(self, full)
-        if ispkg and full in ("strawberryfields.backends", "strawberryfields.compilers", "strawberryfields.io",
-                              "strawberryfields.apps", "strawberryfields.utils", "strawberryfields.tdm",
-                              "strawberryfields.backends.tfbackend", "strawberryfields.api"):
-            return SFPackage(self, full)
+        if ispkg:
+            key = "pkg:" + full
+            if key not in self.modules:
+                self.modules[key] = SFPackage(self, full)
+            return self.modules[key]
         if not os.path.exists(path):
             raise ImportError(full)
         return self.load(full)
